@@ -38,8 +38,9 @@ var c15Pins = []pin{
 	{"fSliceToGo", "tpl", `"[]" ⟨p1(p0.ElemType)⟩`, "[]T"},
 	{"fTupleToGo", "tpl", `"frt.Tuple" ⟨slice.Length(p1.ElemTypes)⟩ "[" join(", "; slice.Map(p0, p1.ElemTypes)) "]"`, "T*U(*V) is frt.Tuple2/3[...]"},
 	{"funcTypeToGo", "tpl", `!⟨$0 := slice.Last(p0.Targets)⟩ "func (" join(","; slice.Map(p1, fargs(p0))) ")" match($0){FType_FUnit: ""; _: " " ⟨p1($0)⟩}`, "A->B->C is func (A,B) C; a unit result prints no result"},
-	{"fpToGo", "tpl", `?(slice.IsEmpty(p1.Targs)){⟨p1.Name⟩}{⟨encloseWith((p1.Name + "["), "]", strings.Concat(", ", slice.Map(p0, p1.Targs)))⟩}`, "Name<T,U> is Name[T, U] (the name is package-qualified at registration)"},
-	{"encloseWith", "nf", "((p0 + p2) + p1)", "beg + center + end"},
+	{"fpToGo", "tpl", `?(slice.IsEmpty(p1.Targs)){⟨p1.Name⟩}{⟨encloseWith((p1.Name + "["), "]", strings.Concat(", ", slice.Map(p0, p1.Targs)))⟩}` +
+		" ||| ⟨p1.Name⟩ ⟨tArgsToGo(p0, p1.Targs)⟩", "Name<T,U> is Name[T, U] (the name is package-qualified at registration)"},
+	{"encloseWith", "nf?", "((p0 + p2) + p1)", "beg + center + end"},
 	{"recordTypeToGo", "tpl", `⟨p1.Name⟩ ⟨tArgsToGo(p0, p1.Targs)⟩`, "user record Name[T, U]"},
 	{"fUnionToGo", "tpl", `⟨p1.Name⟩ ⟨tArgsToGo(p0, p1.Targs)⟩`, "user union Name[T, U]"},
 	{"tArgsToGo", "tpl", `?(slice.IsEmpty(p1)){""}{"[" join(", "; slice.Map(p0, p1)) "]"}`, "type arguments in order"},
